@@ -9,7 +9,7 @@
    excluded: the kept finding F-C02-1 (unsigned values reinterpreted as signed), with witnesses in
    C12/Refuted.v, and wrap-arounds outside any realistic range. *)
 From GocqlV Require Import Lib.Base Gen.Consts C12.Model C12.Spec C12.Denote
-  C12.Proofs1 C12.Proofs2 C12.Proofs3 C12.Proofs4 C12.Proofs5.
+  C12.Proofs1 C12.Proofs2 C12.Proofs3 C12.Proofs4 C12.Proofs5 C12.Proofs6.
 
 (* The type ids of the protocol specification (section 4.2.5.2) are the driver's Type constants. *)
 Theorem C12_type_ids :
@@ -89,6 +89,20 @@ Theorem C12_unmarshal_native_spec : forall id x b t g,
 Proof. exact unmarshal_native_spec. Qed.
 Print Assumptions C12_unmarshal_native_spec.
 
+(* The converse through nesting, by induction over the type tree, both collection framings: Unmarshal of
+   the specification's encoding of a value of ANY type built from natives, lists, sets and tuples stores a
+   Go value that means that value.  [dec_good] (C12/Proofs6.v): leaves as in the native theorem (integer
+   columns into *string included); lists / sets into slices or arrays of any element target, tuples into a
+   []interface{} of pointers (top level) or into a []interface{} of goType values (nested); a null element
+   or component needs a pointer target (into a value target it becomes the zero value, as documented) and,
+   inside a collection, protocol >= 3.  Maps and user-defined types are not covered by this theorem
+   ([dec_good] is False for them). *)
+Theorem C12_unmarshal_is_spec : forall pv ty x b t g,
+  encode_value pv ty x = Some b -> dec_good pv ty x t ->
+  unmarshal pv ty (Some b) t = Ok g -> denote ty g = Some (Some x).
+Proof. exact unmarshal_is_spec. Qed.
+Print Assumptions C12_unmarshal_is_spec.
+
 (* ---- non-vacuity: the hypotheses are satisfiable by non-trivial values -------------------------------- *)
 Example C12_nonvacuous_native :
   let g := GInt I32 true (-70000) in
@@ -112,3 +126,63 @@ Proof.
   cbn [good peel as_list]. repeat constructor; cbn; try lia; try discriminate; try (intros; discriminate);
     try (intros ? H; vm_compute in H; injection H as <-; vm_compute; reflexivity).
 Qed.
+
+(* the nested converse on list<tuple<int, text>> with a null component, into [][]interface{} is excluded
+   (null into a value); into a list of tuples it needs the top-level form: here set<list<varint>> into
+   [][]*big.Int with a null element, and tuple<int, list<text>> into []interface{} of pointers *)
+Example C12_nonvacuous_converse :
+  dec_good 4 (TSet (TList (TNative Id.varint))) (VList [Some (VList [Some (VInt (-70000)); None]); Some (VList [])])
+           (YSlice (YSlice (YPtr YBig)))
+  /\ encode_value 4 (TSet (TList (TNative Id.varint))) (VList [Some (VList [Some (VInt (-70000)); None]); Some (VList [])])
+     = Some [0;0;0;2; 0;0;0;15; 0;0;0;2; 0;0;0;3;254;238;144; 255;255;255;255; 0;0;0;4; 0;0;0;0]
+  /\ unmarshal 4 (TSet (TList (TNative Id.varint))) (Some [0;0;0;2; 0;0;0;15; 0;0;0;2; 0;0;0;3;254;238;144; 255;255;255;255; 0;0;0;4; 0;0;0;0])
+       (YSlice (YSlice (YPtr YBig))) = Ok (GSlice (Some [GSlice (Some [GPtr (Some (GBig (-70000))); GPtr None]); GSlice (Some [])]))
+  /\ dec_good 4 (TTuple [TNative Id.int; TList (TNative Id.text)]) (VTuple [None; Some (VList [Some (VBytes [104])])])
+       (YIfaces [YPtr (YInt I64 false); YSlice (YStr true)]).
+Proof.
+  split. { cbn. repeat constructor; cbn; try lia; try discriminate; reflexivity. }
+  split; [vm_compute; reflexivity|]. split; [vm_compute; reflexivity|].
+  cbn. repeat constructor; cbn; try lia; try discriminate; reflexivity.
+Qed.
+
+(* ---- the model's integer codecs are the code: generated-model equivalence (tools/go2coq, Gen/Code.v,
+   C12/GenEquiv.v) -----------------------------------------------------------------------------------
+   GC.f is the Gallina definition that tools/go2coq generates from the Go source of f (marshal.go) on every
+   run.  Marshal/Unmarshal switch on reflect types and interfaces and stay tied to the model by the
+   correspondence run; the fixed-width integer codecs and the zig-zag step they call are tied by proof. *)
+From GocqlV Require Import Gen.Code.
+From GocqlV Require C12.GenEquiv.   (* not imported: its helper lemmas stay qualified *)
+
+Theorem C12_generated_encInt_is_model : forall x, GC.encInt x = enc_int x.
+Proof. exact C12.GenEquiv.gen_encInt_eq. Qed.
+Print Assumptions C12_generated_encInt_is_model.
+
+Theorem C12_generated_encShort_is_model : forall x, GC.encShort x = enc_short x.
+Proof. exact C12.GenEquiv.gen_encShort_eq. Qed.
+Print Assumptions C12_generated_encShort_is_model.
+
+Theorem C12_generated_encBigInt_is_model : forall x, GC.encBigInt x = enc_bigint x.
+Proof. exact C12.GenEquiv.gen_encBigInt_eq. Qed.
+Print Assumptions C12_generated_encBigInt_is_model.
+
+(* the decoders: byte strings of every length (the code converts each byte to the result type before
+   shifting and ORs the pieces; the model ORs unsigned pieces and wraps once) *)
+Theorem C12_generated_decInt_is_model : forall p, wf_bytes p -> GC.decInt p = dec_int p.
+Proof. exact C12.GenEquiv.gen_decInt_eq. Qed.
+Print Assumptions C12_generated_decInt_is_model.
+
+Theorem C12_generated_decShort_is_model : forall p, wf_bytes p -> GC.decShort p = dec_short p.
+Proof. exact C12.GenEquiv.gen_decShort_eq. Qed.
+Print Assumptions C12_generated_decShort_is_model.
+
+Theorem C12_generated_decBigInt_is_model : forall p, wf_bytes p -> GC.decBigInt p = dec_bigint p.
+Proof. exact C12.GenEquiv.gen_decBigInt_eq. Qed.
+Print Assumptions C12_generated_decBigInt_is_model.
+
+Theorem C12_generated_encIntZigZag_is_model : forall n, GC.encIntZigZag n = enc_zigzag n.
+Proof. exact C12.GenEquiv.gen_encIntZigZag_eq. Qed.
+Print Assumptions C12_generated_encIntZigZag_is_model.
+
+Theorem C12_generated_decIntZigZag_is_model : forall n, GC.decIntZigZag n = dec_zigzag n.
+Proof. exact C12.GenEquiv.gen_decIntZigZag_eq. Qed.
+Print Assumptions C12_generated_decIntZigZag_is_model.
